@@ -19,14 +19,14 @@ pub const PROPS: &[&str] = &["C01", "C02", "C04", "C05", "C06", "C07", "C03", "C
 pub fn def(prop: &str) -> Option<CheckDef> {
     let rule_mpmc = "cases drawn from the run seed by the role-separated mpmc generator (tasks x ops x capacity x payload class x handle flavours x poll plans x fault knobs); a case is non-trivial when operations of at least two tasks overlapped in simulated real time; distinct = distinct (workload shape hash [capacity, constructor, payload class, tasks; not the bit mask or the scheduler knobs], op-level history hash [task, op, result in invocation order]) pairs";
     let d = match prop {
-        "C01" => CheckDef { prop: "C01", quick_runs: 1_000_000, thorough_runs: 50_000_000, level: "exploration", rule: rule_mpmc },
-        "C02" => CheckDef { prop: "C02", quick_runs: 1_000_000, thorough_runs: 50_000_000, level: "exploration", rule: rule_mpmc },
-        "C04" => CheckDef { prop: "C04", quick_runs: 1_000_000, thorough_runs: 50_000_000, level: "exploration", rule: rule_mpmc },
-        "C05" => CheckDef { prop: "C05", quick_runs: 1_000_000, thorough_runs: 50_000_000, level: "exploration", rule: rule_mpmc },
-        "C06" => CheckDef { prop: "C06", quick_runs: 1_000_000, thorough_runs: 50_000_000, level: "exploration", rule: rule_mpmc },
-        "C07" => CheckDef { prop: "C07", quick_runs: 1_000_000, thorough_runs: 50_000_000, level: "exploration", rule: rule_mpmc },
-        "C08" => CheckDef { prop: "C08", quick_runs: 1_000_000, thorough_runs: 50_000_000, level: "exploration", rule: rule_mpmc },
-        "C09" => CheckDef { prop: "C09", quick_runs: 1_000_000, thorough_runs: 50_000_000, level: "exploration", rule: rule_mpmc },
+        "C01" => CheckDef { prop: "C01", quick_runs: 1_000_000, thorough_runs: 30_000_000, level: "exploration", rule: rule_mpmc },
+        "C02" => CheckDef { prop: "C02", quick_runs: 1_000_000, thorough_runs: 30_000_000, level: "exploration", rule: rule_mpmc },
+        "C04" => CheckDef { prop: "C04", quick_runs: 1_000_000, thorough_runs: 30_000_000, level: "exploration", rule: rule_mpmc },
+        "C05" => CheckDef { prop: "C05", quick_runs: 1_000_000, thorough_runs: 30_000_000, level: "exploration", rule: rule_mpmc },
+        "C06" => CheckDef { prop: "C06", quick_runs: 1_000_000, thorough_runs: 30_000_000, level: "exploration", rule: rule_mpmc },
+        "C07" => CheckDef { prop: "C07", quick_runs: 1_000_000, thorough_runs: 30_000_000, level: "exploration", rule: rule_mpmc },
+        "C08" => CheckDef { prop: "C08", quick_runs: 1_000_000, thorough_runs: 30_000_000, level: "exploration", rule: rule_mpmc },
+        "C09" => CheckDef { prop: "C09", quick_runs: 1_000_000, thorough_runs: 30_000_000, level: "exploration", rule: rule_mpmc },
         "C10" | "C11" | "C12" | "C13" | "C14" | "C15" | "C16" | "C19" => {
             let p: &'static str = match prop {
                 "C10" => "C10",
@@ -38,12 +38,12 @@ pub fn def(prop: &str) -> Option<CheckDef> {
                 "C16" => "C16",
                 _ => "C19",
             };
-            CheckDef { prop: p, quick_runs: 1_000_000, thorough_runs: 50_000_000, level: "exploration", rule: rule_mpmc }
+            CheckDef { prop: p, quick_runs: 1_000_000, thorough_runs: 30_000_000, level: "exploration", rule: rule_mpmc }
         }
         "C17" => CheckDef {
             prop: "C17",
             quick_runs: 1_000_000,
-            thorough_runs: 50_000_000,
+            thorough_runs: 30_000_000,
             level: "exploration",
             rule: "2-4 tasks x 1-4 lock/try_lock/yield operations on kanal's internal lock (lock_api mutex over RawMutexLock), with a non-atomic read-modify-write inside the critical section, parallelism 1 and 4, stalls and freezes of the holder; non-trivial = operations of two tasks overlapped; distinct = distinct (workload shape hash, history hash) pairs",
         },
@@ -57,7 +57,7 @@ pub fn def(prop: &str) -> Option<CheckDef> {
         "C18" => CheckDef {
             prop: "C18",
             quick_runs: 1_200_000,
-            thorough_runs: 50_000_000,
+            thorough_runs: 30_000_000,
             level: "exploration",
             rule: "single-task call sequences compared call by call with the reference model: first the systematic sweep of ALL sequences of length <= 3 (quick) / <= 4 (thorough) over a 26-call core alphabet x capacities {0,1,2,unbounded}, then seeded random sequences of length <= 40 over the full API alphabet with per-run alphabet subsets; non-trivial = at least 2 calls; distinct = distinct (workload shape hash, history hash) pairs",
         },
